@@ -27,6 +27,7 @@ KINDS_T = KINDS_Q + [5.5, 'p*r']
 TARGET = [1, 2, 4, 8]
 TARGET2 = [16, 't', None, 128]
 TARGET_E = [32, 64, 256, 512]   # E3:E6
+TARGET_T = [1024, 2048, 4096, 8192, 16384]   # T!A1:A5
 SECOND = [3, 9, 3, 9]          # fixed second criteria range, criterion ">5" selects positions 1 and 3 (0-based)
 
 # (name, formula text of the criterion, value the criterion evaluates to)
@@ -71,6 +72,9 @@ VARIANTS = [
     ('SUMIF/3lower', '=SUMIF(A1:A{n},{c},B2:B{p})', 'sum_lower1', False),
     ('SUMIF/3lowercorner', '=SUMIF(A1:A{n},{c},B3)', 'sum_lower2', False),
     ('SUMIF/3lowershort', '=SUMIF(A1:A{n},{c},E3:E4)', 'sum_e', False),
+    # the target lies on another sheet, at the very address of the criteria range
+    ('SUMIF/3othersheet', '=SUMIF(A1:A{n},{c},T!A1:A{n})', 'sum_t', False),
+    ('SUMIFS/1othersheet', '=SUMIFS(T!A1:A{n},A1:A{n},{c})', 'sum_t', False),
     # different sizes: an error, never a number
     ('SUMIFS/short', '=SUMIFS(B1:B{m},A1:A{n},{c})', 'error', False),
     ('SUMIFS/long', '=SUMIFS(B1:B{p},A1:A{n},{c})', 'error', False),
@@ -92,10 +96,12 @@ FORMS_TF = [
     ('gt_cell_date', '">"&L1', '>43861'), ('ne_cell_date', '"<>"&L1', '<>43861'), ('le_cell_date', '"<="&L1', '<=43861'),
     ('eq_cell_float17', '"="&O1', '=0.3'), ('ne_cell_float17', '"<>"&O1', '<>0.3'), ('lt_cell_intfloat', '"<"&M1', '<5'),
     ('eq_cell_num', '"="&F1', '=5'),
+    ('two_blanks', '"a  b"', 'a  b'), ('ne_two_blanks', '"<>a  b"', '<>a  b'), ('wild_two_blanks', '"a  *"', 'a  *'),
+    ('tab_inside', '"a\tb"', 'a\tb'),
     ('tilde_tilde', '"a~~b"', 'a~~b'), ('ne_tilde_tilde', '"<>a~~b"', '<>a~~b'), ('eq_tilde_q', '"=a~?b"', '=a~?b'), ('tilde_star_cell', '"="&P1', '=a~*b'),
 ]
 FIXED_TF = {'L1': DATE_CELL, 'O1': '=0.1+0.2', 'M1': '=10/2', 'P1': 'a~*b'}
-KINDS_TF = [43860, 43862, 0.3, 5, 'apple', None, 'a~b', 'ab', 'a?b', 'a*b']
+KINDS_TF = [43860, 43862, 0.3, 5, 'apple', None, 'a~b', 'ab', 'a?b', 'a*b', 'a  b', 'a b']
 
 
 def build(n, tf=False):
@@ -122,7 +128,7 @@ def build(n, tf=False):
             cells[addr] = tmpl.format(n=n, m=n - 1, p=n + 1, c=ftext)
             meta.append((addr, fi, vi))
         row += 1
-    return [('S', cells)], meta
+    return [('S', cells), ('T', {f'A{i + 1}': v for i, v in enumerate(TARGET_T)})], meta
 
 
 def D_col(i):
@@ -218,6 +224,8 @@ def expected(kind, second, vec, crit):
     if kind in ('sum_lower1', 'sum_lower2', 'sum_e'):
         col = {'sum_lower1': (TARGET + [1000, 2000])[1:], 'sum_lower2': (TARGET + [1000, 2000])[2:], 'sum_e': TARGET_E}[kind]
         return sum(col[i] for i in sel), sel
+    if kind == 'sum_t':
+        return sum(TARGET_T[i] for i in sel), sel
     if kind == 'sum_shift':
         sel = [i for i in range(1, n) if pred(vec[i])]
         return sum(TARGET[i - 1] for i in sel), sel
@@ -303,7 +311,7 @@ def run_cell(cases, stats):
         for k, v in enumerate(vec):
             if v is not None:
                 cells[f'A{k + 1}'] = v
-        kind, cls = S.try_class([('S', cells)], stats=stats)
+        kind, cls = S.try_class([('S', cells)] + list(sheets[1:]), stats=stats)
         S._CACHE.clear()
         if kind != 'OK':
             vio.append({'i': i, 'desc': {'func': 'workbook', 'src': 'cell', 'outcome': 'SCAFFOLD'}, 'expected': 'translates',
